@@ -147,11 +147,6 @@ fn fixed_clauses(rep: &mut Rep) {
             }
         }
     }
-    // blank suit signature
-    rep.evaluations += 1;
-    if CardSuit::BLANK.binary_signature() != 0 {
-        rep.violation("the blank suit has no suit bit", "CardSuit::binary_signature", Input::Ops(vec!["BLANK".into()]), "0".into(), format!("{}", CardSuit::BLANK.binary_signature()));
-    }
     rep.evaluations += 1;
     if !0u32.is_blank() {
         rep.violation("the zero word is blank", "is_blank", Input::Words(vec![0]), "true".into(), "false".into());
